@@ -1,11 +1,13 @@
 #!/venv/bin/python
 """Copies every confirmed seeded change from <root>/Cxx/mutant_X into /verif/seeded/Cxx/X/ (patch.diff, demo.py, meta.json)
-and prints the markdown table for DESIGN.md.  usage: tools/keep_seeded.py <root> [extra-results.json]"""
+and prints the markdown table for DESIGN.md.  usage: tools/keep_seeded.py <root> [--round R2]
+(with --round the destination is /verif/seeded/Cxx/<round>_X/)"""
 import json, os, shutil, sys, glob
 
 VERIF = os.path.dirname(os.path.dirname(os.path.abspath(__file__)))
 root = sys.argv[1]
-extra = json.load(open(sys.argv[2])) if len(sys.argv) > 2 else {}
+rnd = sys.argv[sys.argv.index("--round") + 1] if "--round" in sys.argv else None
+extra = {}
 rows = []
 for d in sorted(glob.glob(os.path.join(root, "C*", "mutant_*"))):
     rj = os.path.join(d, "result.json")
@@ -22,10 +24,14 @@ for d in sorted(glob.glob(os.path.join(root, "C*", "mutant_*"))):
     if not res.get("confirmed"):
         rows.append((pid, x, meta.get("summary", "")[:110], "NOT CONFIRMED - dropped", ""))
         continue
-    dst = os.path.join(VERIF, "seeded", pid, x)
+    dst = os.path.join(VERIF, "seeded", pid, f"{rnd}_{x}" if rnd else x)
     os.makedirs(dst, exist_ok=True)
     shutil.copy(os.path.join(d, "patch.diff"), dst)
     shutil.copy(os.path.join(d, "demo.py"), dst)
+    note = None
+    if os.path.exists(os.path.join(d, "patch.as-written.diff")):
+        shutil.copy(os.path.join(d, "patch.as-written.diff"), dst)
+        note = "patch.diff is the sub-agent's change re-applied by hand on the current HEAD (a later fix: commit touched its context lines); patch.as-written.diff is the original"
     caught = list(res.get("caught_by", []))
     sigs = {c: r["signatures"][:3] for c, r in res.get("checks", {}).items() if r["exit"] == 1}
     for c, s in extra.get(key, {}).items():
@@ -40,8 +46,12 @@ for d in sorted(glob.glob(os.path.join(root, "C*", "mutant_*"))):
         "checks_run": "git -C /repo apply patch.diff; ./check <ID> --tier quick; git -C /repo checkout -- .",
         "caught_by": caught, "signatures": sigs,
     }
+    if note:
+        meta_out["note"] = note
+    if rnd:
+        meta_out["round"] = rnd
     json.dump(meta_out, open(os.path.join(dst, "meta.json"), "w"), indent=1)
-    rows.append((pid, x, (meta.get("summary") or "")[:150].replace("|", "/").replace("\n", " "), ", ".join(caught) if caught else "**missed**",
+    rows.append((pid, f"{rnd}/{x}" if rnd else x, (meta.get("summary") or "")[:150].replace("|", "/").replace("\n", " "), ", ".join(caught) if caught else "**missed**",
                  "; ".join(f"{c}: {s[0]}" for c, s in sigs.items() if s)[:160]))
 print("| property | change | what it does | caught by (quick tier) | first signature |")
 print("|---|---|---|---|---|")
